@@ -23,7 +23,10 @@ type lin struct {
 	off  int64
 }
 
-type bfact struct{ a, b string; c int64 } // a - b <= c   ("" denotes the constant zero)
+type bfact struct {
+	a, b string
+	c    int64
+} // a - b <= c   ("" denotes the constant zero)
 
 type boundsProver struct {
 	assume   map[*ssa.Function][]bfact // relational preconditions, checked separately at the call sites
